@@ -461,9 +461,14 @@ fn root_key(v: &Viol) -> String {
     } else if what.contains("beyond the buffer length") {
         "string:offset-beyond-buffer".to_string()
     } else {
-        let tail = what.split(": ").nth(1).unwrap_or(what);
-        let words: Vec<&str> = tail.split_whitespace().filter(|w| !w.chars().any(|c| c.is_ascii_digit())).take(8).collect();
-        words.join("_")
+        // "buffer .. requests [..]: step N <request>: <message>"
+        let mut parts = what.splitn(3, ": ");
+        let _ = parts.next();
+        let step = parts.next().unwrap_or("");
+        let msg = parts.next().unwrap_or(what);
+        let req = step.split_whitespace().nth(2).unwrap_or("").split('(').next().unwrap_or("");
+        let words: Vec<&str> = msg.split_whitespace().filter(|w| !w.chars().any(|c| c.is_ascii_digit())).take(7).collect();
+        format!("{}:{}", req, words.join("_"))
     };
     format!("C11:{}", class)
 }
